@@ -39,6 +39,8 @@ class Wire(object):
         self.serial = 0
         self.errors = []        # exceptions raised while delivering (swallowed like core.run does)
         self.auto = False       # True: deliver immediately (perfect network)
+        self.keep_delivered = False
+        self.delivered = []     # Frames that were delivered (kept only on request: stragglers of an earlier exchange)
 
     def park(self, net, pdu):
         self.serial += 1
@@ -63,6 +65,8 @@ class Wire(object):
             # the copy that stays must be independent of what receivers do with the PDU
         else:
             del self.inflight[i]
+        if self.keep_delivered and not any(f is fr for f in self.delivered):
+            self.delivered.append(fr)
         self._deliver(fr)
         return fr
 
